@@ -8,45 +8,48 @@ set_option maxHeartbeats 4000000
 
 /-- program counters at which the actor holds `p_future->lock` -/
 def HoldsLock : Pc → Prop
-  | .setCS | .setErrCS | .setCbCS | .setStCS | .setBcCS | .setRelCS | .waitLdCS | .waitCS | .waitEnq | .reW
-  | .reR | .passCS | .resetCS | .resetStCS => True
+  | .setCS | .setErrCS | .setCbCS | .setCbRun | .setStCS | .setBcCS | .setRelCS | .waitLdCS | .waitCS | .waitEnq | .reW
+  | .reR | .passCS | .resetCS | .resetStCS | .freeCS | .freed => True
   | .idle | .rejected | .setCalled | .setErrDone | .setDone | .waitCalled | .waiting | .woken | .waitDone
-  | .testCalled | .testDone0 | .testDone1 | .resetCalled | .resetDone => False
+  | .testCalled | .testDone0 | .testDone1 | .resetCalled | .resetDone | .freeCalled => False
 
 /-- program counters of an actor that is in the wait-list -/
 def InQ : Pc → Prop
   | .waitEnq | .waiting | .reW => True
-  | .idle | .rejected | .setCalled | .setCS | .setErrCS | .setErrDone | .setCbCS | .setStCS | .setBcCS
+  | .idle | .rejected | .setCalled | .setCS | .setErrCS | .setErrDone | .setCbCS | .setCbRun | .setStCS | .setBcCS
   | .setRelCS | .setDone | .waitCalled | .waitLdCS | .waitCS | .woken | .reR | .passCS | .waitDone
-  | .testCalled | .testDone0 | .testDone1 | .resetCalled | .resetCS | .resetStCS | .resetDone => False
+  | .testCalled | .testDone0 | .testDone1 | .resetCalled | .resetCS | .resetStCS | .resetDone
+  | .freeCalled | .freeCS | .freed => False
 
 /-- program counters inside ABT_future_wait past the tasklet check -/
 def InWait : Pc → Prop
   | .waitCalled | .waitLdCS | .waitCS | .waitEnq | .waiting | .reW | .woken | .reR | .passCS | .waitDone => True
-  | .idle | .rejected | .setCalled | .setCS | .setErrCS | .setErrDone | .setCbCS | .setStCS | .setBcCS
+  | .idle | .rejected | .setCalled | .setCS | .setErrCS | .setErrDone | .setCbCS | .setCbRun | .setStCS | .setBcCS
   | .setRelCS | .setDone | .testCalled | .testDone0 | .testDone1 | .resetCalled | .resetCS | .resetStCS
-  | .resetDone => False
+  | .resetDone | .freeCalled | .freeCS | .freed => False
 
 /-- callers whose observation was "all compartments set" -/
 def SawReady : Pc → Prop
   | .woken | .reR | .passCS | .waitDone | .testDone1 => True
-  | .idle | .rejected | .setCalled | .setCS | .setErrCS | .setErrDone | .setCbCS | .setStCS | .setBcCS
+  | .idle | .rejected | .setCalled | .setCS | .setErrCS | .setErrDone | .setCbCS | .setCbRun | .setStCS | .setBcCS
   | .setRelCS | .setDone | .waitCalled | .waitLdCS | .waitCS | .waitEnq | .waiting | .reW | .testCalled
-  | .testDone0 | .resetCalled | .resetCS | .resetStCS | .resetDone => False
+  | .testDone0 | .resetCalled | .resetCS | .resetStCS | .resetDone | .freeCalled | .freeCS | .freed => False
 
 /-- between the compartment store and the counter store of a successful set -/
 def Staged : Pc → Prop
-  | .setCbCS | .setStCS => True
+  | .setCbCS | .setCbRun | .setStCS => True
   | .idle | .rejected | .setCalled | .setCS | .setErrCS | .setErrDone | .setBcCS | .setRelCS | .setDone
   | .waitCalled | .waitLdCS | .waitCS | .waitEnq | .waiting | .reW | .woken | .reR | .passCS | .waitDone
-  | .testCalled | .testDone0 | .testDone1 | .resetCalled | .resetCS | .resetStCS | .resetDone => False
+  | .testCalled | .testDone0 | .testDone1 | .resetCalled | .resetCS | .resetStCS | .resetDone
+  | .freeCalled | .freeCS | .freed => False
 
 /-- program counters that cannot occur when the future has no compartment -/
 def NeedsComp : Pc → Prop
-  | .setCbCS | .setStCS | .setBcCS | .setRelCS | .setDone | .waitCS | .waitEnq | .waiting | .reW | .woken
+  | .setCbCS | .setCbRun | .setStCS | .setBcCS | .setRelCS | .setDone | .waitCS | .waitEnq | .waiting | .reW | .woken
   | .reR | .testDone0 => True
   | .idle | .rejected | .setCalled | .setCS | .setErrCS | .setErrDone | .waitCalled | .waitLdCS | .passCS
-  | .waitDone | .testCalled | .testDone1 | .resetCalled | .resetCS | .resetStCS | .resetDone => False
+  | .waitDone | .testCalled | .testDone1 | .resetCalled | .resetCS | .resetStCS | .resetDone
+  | .freeCalled | .freeCS | .freed => False
 
 structure Inv (s : St) : Prop where
   lockIff : ∀ a, s.lock = some a ↔ HoldsLock (s.pc a)
@@ -56,7 +59,7 @@ structure Inv (s : St) : Prop where
   ultPc : ∀ a, s.kind a = .ult → (s.pc a ≠ .reW ∧ s.pc a ≠ .reR)
   cntLe : s.counter ≤ s.n
   cntSets : s.counter = s.sets s.epoch
-  fut : ∀ k, s.epoch < k → (s.sets k = 0 ∧ s.cbRuns k = 0)
+  fut : ∀ k, s.epoch < k → (s.sets k = 0 ∧ s.cbRuns k = 0 ∧ s.cbBeg k = 0)
   noLost : s.q ≠ [] → s.counter = s.n → (s.lock ≠ none ∧ ∀ b, s.lock = some b → s.pc b = .setBcCS)
   csNotFull : ∀ a, s.pc a = .waitCS → s.counter < s.n
   bcFull : ∀ a, s.pc a = .setBcCS → s.counter = s.n
@@ -64,8 +67,13 @@ structure Inv (s : St) : Prop where
   valsFree : s.lock = none → s.vals.length = s.counter
   valsHeld : ∀ a, HoldsLock (s.pc a) → ¬ Staged (s.pc a) → s.vals.length = s.counter
   staged : ∀ a, Staged (s.pc a) → (s.vals.length = s.counter + 1 ∧ s.loc a = s.counter + 1 ∧ s.loc a ≤ s.n)
-  cbStage : ∀ a, s.pc a = .setCbCS → (s.loc a = s.n ∧ s.hasCb = true ∧ s.cbRuns s.epoch = 0)
-  stStage : ∀ a, s.pc a = .setStCS → (s.cbRuns s.epoch = if s.loc a = s.n ∧ s.hasCb = true then 1 else 0)
+  cbStage : ∀ a, s.pc a = .setCbCS → (s.loc a = s.n ∧ s.hasCb = true ∧ s.cbRuns s.epoch = 0 ∧ s.cbBeg s.epoch = 0)
+  cbRunStage : ∀ a, s.pc a = .setCbRun → (s.loc a = s.n ∧ s.hasCb = true ∧ s.cbRuns s.epoch = 0 ∧ s.cbBeg s.epoch = 1)
+  stStage : ∀ a, s.pc a = .setStCS →
+    ((s.cbRuns s.epoch = if s.loc a = s.n ∧ s.hasCb = true then 1 else 0) ∧ s.cbBeg s.epoch = s.cbRuns s.epoch)
+  begFree : s.lock = none → s.cbBeg s.epoch = s.cbRuns s.epoch
+  begHeld : ∀ a, HoldsLock (s.pc a) → ¬ Staged (s.pc a) → s.cbBeg s.epoch = s.cbRuns s.epoch
+  begLe : ∀ k, s.cbBeg k ≤ 1
   cbFree : s.lock = none → (s.cbRuns s.epoch = if s.counter = s.n ∧ s.hasCb = true ∧ 0 < s.n then 1 else 0)
   cbHeld : ∀ a, HoldsLock (s.pc a) → ¬ Staged (s.pc a) →
     (s.cbRuns s.epoch = if s.counter = s.n ∧ s.hasCb = true ∧ 0 < s.n then 1 else 0)
@@ -74,6 +82,7 @@ structure Inv (s : St) : Prop where
   sawOK : ∀ a, SawReady (s.pc a) →
     (s.sets (s.relEpoch a) = s.n ∧ s.relEpoch a ≤ s.epoch ∧ (s.hasCb = true → 0 < s.n → s.cbRuns (s.relEpoch a) = 1))
   zero : s.n = 0 → ((∀ a, ¬ NeedsComp (s.pc a)) ∧ s.q = [] ∧ s.vals = [] ∧ ∀ k, s.cbRuns k = 0)
+  zeroBeg : s.n = 0 → ∀ k, s.cbBeg k = 0
 
 theorem inQ_inWait (p : Pc) (h : InQ p) : InWait p := by cases p <;> simp_all [InQ, InWait]
 theorem inQ_needs (p : Pc) (h : InQ p) : NeedsComp p := by cases p <;> simp_all [InQ, NeedsComp]
@@ -86,7 +95,8 @@ macro "inv_tac" h:ident : tactic => `(tactic|
   (have := ($h).lockIff; have := ($h).nodup; have := ($h).inQ; have := ($h).taskPc; have := ($h).ultPc
    have := ($h).cntLe; have := ($h).cntSets; have := ($h).fut; have := ($h).noLost; have := ($h).csNotFull
    have := ($h).bcFull; have := ($h).relNotFull; have := ($h).valsFree; have := ($h).valsHeld; have := ($h).staged
-   have := ($h).cbStage; have := ($h).stStage; have := ($h).cbFree; have := ($h).cbHeld; have := ($h).cbLe; have := ($h).cbFull
+   have := ($h).cbStage; have := ($h).cbRunStage; have := ($h).stStage; have := ($h).begFree; have := ($h).begHeld
+   have := ($h).begLe; have := ($h).zeroBeg; have := ($h).cbFree; have := ($h).cbHeld; have := ($h).cbLe; have := ($h).cbFull
    have := ($h).sawOK; have := ($h).zero
    try simp only [setPc, lockAs, unlockAs, store] at *
    grind [upd, HoldsLock, InQ, InWait, SawReady, Staged, NeedsComp]))
@@ -101,6 +111,10 @@ theorem inv_retire (s : St) (a : Actor) (h : Inv s) (h1 : ¬ HoldsLock (s.pc a))
     Inv (setPc s a .idle) := by
   constructor <;> inv_tac h
 
+/-- ABT_future_free returns: the caller keeps the lock word for ever -/
+theorem inv_freed (s : St) (a : Actor) (h : Inv s) (hp : s.pc a = .freeCS) : Inv (setPc s a .freed) := by
+  constructor <;> inv_tac h
+
 theorem inv_stepRet (s s' : St) (a : Actor) (op : Op) (rc : Rc) (r : Bool) (h : Inv s)
     (hs : stepRet s a op rc r = some s') : Inv s' := by
   unfold stepRet at hs
@@ -109,6 +123,7 @@ theorem inv_stepRet (s s' : St) (a : Actor) (op : Op) (rc : Rc) (r : Bool) (h : 
     | (cases hs; done)
     | (cases hs; rename_i hp; exact inv_retire s a h (by rw [hp]; simp [HoldsLock]) (by rw [hp]; simp [InQ]))
     | (cases hs; rename_i hp _; exact inv_retire s a h (by rw [hp]; simp [HoldsLock]) (by rw [hp]; simp [InQ]))
+    | (cases hs; rename_i hp; exact inv_freed s a h hp)
 
 theorem chk_some (s s' : St) (c n : Nat) (e : Bool) (hs : chk s c n e = some s') :
     s' = s ∧ c = s.counter ∧ n = s.n ∧ e = s.q.isEmpty := by
